@@ -432,4 +432,165 @@ end
 
 end Ieee
 
+/-! ## 3. non-vacuity and sharpness: osu!-mode files with a slider, decoded and finalised by the kernel on doubles
+
+(`Trig Float32` of Model/Cmds/Curve.lean; one object per file, as in Props/C04DecodedObjectsIeee2.lean.) -/
+
+section Examples
+set_option maxRecDepth 100000
+
+def upToB (x : Float) : Bool := x.isFinite && Scalar.le x (maxParseValue : Float)
+
+theorem upTo_of_check {x : Float} (h : upToB x = true) : UpTo x := by
+  unfold upToB at h
+  rw [Bool.and_eq_true] at h
+  exact h
+
+/-- `SliderTailOk` as a check (the span ends `k = 0 … n − 2`). -/
+def sliderTailOkB (A dur : Float) (n : Int) : Bool :=
+  inLimitB (A + dur) && Scalar.le (0 : Float) (dur / (Scalar.ofInt n : Float)) &&
+    upToB (A + (Scalar.ofInt n : Float) * (dur / (Scalar.ofInt n : Float))) &&
+    (List.range (n.toNat - 1)).all (fun k =>
+      upToB ((A + (Scalar.ofInt (k : Int) : Float) * (dur / (Scalar.ofInt n : Float))) + dur / (Scalar.ofInt n : Float)))
+
+theorem sliderTailOk_of_check {A dur : Float} {n : Int} (h : sliderTailOkB A dur n = true) : SliderTailOk A dur n := by
+  unfold sliderTailOkB at h
+  simp only [Bool.and_eq_true] at h
+  obtain ⟨⟨⟨a1, a2⟩, a3⟩, a4⟩ := h
+  refine ⟨inLimit_of_check a1, a2, upTo_of_check a3, fun k hk0 hk2 => ?_⟩
+  have hm : k.toNat ∈ List.range (n.toNat - 1) := List.mem_range.mpr (by omega)
+  have := List.all_eq_true.mp a4 k.toNat hm
+  rw [Int.toNat_of_nonneg hk0] at this
+  exact upTo_of_check this
+
+section
+variable [Trig Float32]
+
+/-- `ObjEndOk` as a check. -/
+def objEndOkB (h : HitObject Float Float32) : Bool :=
+  match h.kind with
+  | .circle _ => true
+  | .spinner sp => endOkB h.startTime sp.duration
+  | .hold ho => endOkB h.startTime ho.duration
+  | .slider s =>
+    match curveDist s with
+    | .ok dist => sliderTailOkB h.startTime ((Scalar.ofInt (s.repeatCount + 1) : Float) * dist / s.velocity) (s.repeatCount + 1)
+    | .error _ => true
+
+theorem objEndOk_of_check (h : HitObject Float Float32) (hb : objEndOkB h = true) : ObjEndOk h := by
+  unfold objEndOkB at hb
+  unfold ObjEndOk
+  cases hk : h.kind with
+  | circle c => trivial
+  | spinner sp => rw [hk] at hb; exact endOk_of_check hb
+  | hold ho => rw [hk] at hb; exact endOk_of_check hb
+  | slider s =>
+    rw [hk] at hb
+    intro dist hd
+    simp only [hd] at hb
+    exact sliderTailOk_of_check hb
+
+/-- the collected times of a map, as bit patterns. -/
+def collectedBits (m : Beatmap Float Float32) : List UInt64 :=
+  match collectAll m m.hitObjects [] with
+  | .ok pts => pts.map (fun (p : SamplePoint Float) => p.time.toBits)
+  | .error _ => []
+
+def collectedInLimitB (m : Beatmap Float Float32) : Bool :=
+  match collectAll m m.hitObjects [] with
+  | .ok pts => pts.all (fun (p : SamplePoint Float) => inLimitB p.time)
+  | .error _ => true
+
+end
+
+/-- an osu!-mode file (beat length `500`, slider multiplier `1.4`: velocity `0.28`) with one `[HitObjects]` line. -/
+def evFileOf (l : String) : List UInt8 :=
+  (str "osu file format v14\n\n[General]\nMode: 0\n\n[TimingPoints]\n0,500,4,2,0,100,1,0\n\n[HitObjects]\n" ++ str l ++
+    str "\n").map (fun c => c.toNat.toUInt8)
+
+/-- a linear slider of length `100` with one repeat (two spans), starting at `1000`: duration `2·100/0.28 = 714.2857…`. -/
+def evLine : String := "100,100,1000,2,0,L|200:100,2,100"
+
+/-- the same slider starting `647` ms before the parse limit `2147483647`. -/
+def evOverLine : String := "100,100,2147483000,2,0,L|200:100,2,100"
+
+/-- what the kernel computes for `evLine`: osu! mode, one object, `ObjEndOk` holds, and `collect_samples` takes four points:
+the end `1714.2857142857142`, the head `1000`, the repeat `1357.142857142857`, the tail `1714.2857142857142`. -/
+theorem ev_checked :
+    (decodeFinish (evFileOf evLine)).map (fun m => (m.general.mode, m.hitObjects.length, m.hitObjects.all objEndOkB,
+      collectedBits m)) =
+    some (GameMode.osu, 1, true, [0x409AC92492492492, 0x408F400000000000, 0x4095349249249249, 0x409AC92492492492]) := by
+  decide +kernel
+
+/-- **the hypotheses of `collectedTimes_all_modes_float` / `timing_lines_accepted_decoded_ieee_ends` are satisfiable on a
+decoded osu!-mode map with a slider**, and their conclusions for it. -/
+theorem ev_accepted :
+    ∃ (st : BeatmapState Float Float32) (m : Beatmap Float Float32),
+      decodeBytes beatmapDecoder (evFileOf evLine) = .ok st ∧ st.finish = .ok m ∧ m.general.mode = .osu ∧
+      m.hitObjects.length = 1 ∧ ObjEndsInLimit m ∧ SliderTailInLimit m ∧ SliderTimesInLimit m ∧ CollectedTimesInLimit m ∧
+      RepTimingMap IeeeRep64 m ∧
+      ∀ t, encodeTimingPoints m = .ok t →
+        ∃ cp, collectSamples m = .ok cp ∧ t = unlines (str "[TimingPoints]" :: (mapEntries m cp).map Entry.line) ∧
+          ∀ st : TimingPointsState Float Float32,
+            Accepts (fun s l => ((parseTimingPoints s l).2, (parseTimingPoints s l).1.isOk)) st
+              (((mapEntries m cp).map Entry.line).map trimEnd) := by
+  have hc := ev_checked
+  cases hm : decodeFinish (evFileOf evLine) with
+  | none => rw [hm] at hc; cases hc
+  | some m =>
+    rw [hm] at hc
+    simp only [Option.map_some, Option.some.injEq, Prod.mk.injEq] at hc
+    obtain ⟨c1, c2, c3, _⟩ := hc
+    obtain ⟨st, h1, h2⟩ := decodeFinish_spec hm
+    have he : ObjEndsInLimit m := fun h hh => objEndOk_of_check h (List.all_eq_true.mp c3 h hh)
+    refine ⟨st, m, h1, h2, c1, c2, he, sliderTail_of_objEnds he,
+      sliderTimes_osu_catch_float _ st m h1 h2 (sliderTail_of_objEnds he),
+      collectedTimes_all_modes_float _ st m h1 h2 he, decoded_repTimingMap_ieee_ends _ st m h1 h2 he, fun t ht => ?_⟩
+    obtain ⟨cp, e1, e2, _, e4⟩ := timing_lines_accepted_decoded_ieee_ends _ st m h1 h2 he t ht
+    exact ⟨cp, e1, e2, e4⟩
+
+/-- what the kernel computes for `evOverLine`: osu! mode, one object, `ObjEndOk` FAILS; the four collected times are the end
+`2147483714.2857141`, the head `2147483000`, the repeat `2147483357.142857`, the tail `2147483714.2857141` — end and tail
+beyond the limit. -/
+theorem evOver_checked :
+    (decodeFinish (evFileOf evOverLine)).map (fun m => (m.general.mode, m.hitObjects.length, m.hitObjects.any objEndOkB,
+      collectedBits m, collectedInLimitB m)) =
+    some (GameMode.osu, 1, false,
+      [0x41E0000008492492, 0x41DFFFFF5E000000, 0x41DFFFFFB7492492, 0x41E0000008492492], false) := by
+  decide +kernel
+
+/-- **the hypothesis is needed in osu! mode** (mirroring `over_not_collectedTimes` on doubles): the slider near the limit
+decodes and finalises, its tail `2147483714.2857141` is beyond the parse limit, `ObjEndsInLimit` fails — and so does
+`CollectedTimesInLimit`. -/
+theorem evOver_not_collectedTimes :
+    ∃ (st : BeatmapState Float Float32) (m : Beatmap Float Float32),
+      decodeBytes beatmapDecoder (evFileOf evOverLine) = .ok st ∧ st.finish = .ok m ∧ m.general.mode = .osu ∧
+      m.hitObjects.length = 1 ∧ ¬ CollectedTimesInLimit m ∧ ¬ ObjEndsInLimit m := by
+  have hc := evOver_checked
+  cases hm : decodeFinish (evFileOf evOverLine) with
+  | none => rw [hm] at hc; cases hc
+  | some m =>
+    rw [hm] at hc
+    simp only [Option.map_some, Option.some.injEq, Prod.mk.injEq] at hc
+    obtain ⟨c1, c2, _, _, c5⟩ := hc
+    obtain ⟨st, h1, h2⟩ := decodeFinish_spec hm
+    have hnot : ¬ CollectedTimesInLimit m := by
+      intro hct
+      unfold collectedInLimitB at c5
+      cases hca : collectAll m m.hitObjects [] with
+      | error e => rw [hca] at c5; cases c5
+      | ok pts =>
+        rw [hca] at c5
+        have hall : pts.all (fun (p : SamplePoint Float) => inLimitB p.time) = true := by
+          apply List.all_eq_true.mpr
+          intro p hp
+          obtain ⟨a, b, c⟩ := hct pts hca p hp
+          unfold inLimitB
+          rw [a, b, c]; rfl
+        simp only [] at c5
+        rw [hall] at c5; cases c5
+    exact ⟨st, m, h1, h2, c1, c2, hnot, fun he => hnot (collectedTimes_all_modes_float _ st m h1 h2 he)⟩
+
+end Examples
+
 end Rosu.C04
